@@ -368,6 +368,11 @@ fn gen_c04(r: &mut Rng, tier: Tier, job: u64) -> Plan {
         act: Act::None,
     });
     let mut p = Plan::basic(cmds);
+    if r.coin() {
+        // whatever the client announced in its handshake (capabilities, max_packet_size, ...)
+        // must not change the framing of what the server sends
+        p.handshake = gen_handshake(r);
+    }
     p.arrival = if r.coin() { Arrival::lockstep() } else { Arrival::upfront() };
     // write schedule: short writes that do not explode the operation count
     p.writes.accept = match r.below(7) {
@@ -1027,6 +1032,33 @@ impl Check for C19 {
                     persistent: n % 2 == 0,
                 }];
                 ctx.eval(&p);
+            }
+            return;
+        }
+        let n_giant_in = if tier == Tier::Quick { 2 } else { 40 };
+        if job >= n_giant_in && job < n_giant_in + if tier == Tier::Quick { 1 } else { 12 } {
+            // a conversation whose reply is a message of >= 2^24-1 bytes: a fault at every
+            // transport operation (the full-size packets are written by single large writes)
+            let mut base = gen_c04_plan(rng, tier, 0);
+            base.writes = WriteSched::all();
+            base.arrival = Arrival::lockstep();
+            let (out, _) = ctx.eval_out(&base);
+            let n_ops = out.w.op;
+            drop(out);
+            ctx.stats.bump("enum.giant_reply_conversations", 1);
+            let mut p = base.clone();
+            for k in 0..n_ops.min(200) {
+                for (kind, persistent) in [
+                    (FaultKind::Err(ERR_KINDS[(k as usize) % ERR_KINDS.len()]), false),
+                    (FaultKind::Err(ERR_KINDS[(k as usize + 1) % ERR_KINDS.len()]), true),
+                ] {
+                    p.faults = vec![Fault {
+                        at: FaultAt::Op(k),
+                        kind,
+                        persistent,
+                    }];
+                    ctx.eval(&p);
+                }
             }
             return;
         }
